@@ -101,7 +101,7 @@ func dsReplay(a Args) {
 				return dsOK(again)
 			})
 		default:
-			res = hx.Guard(func() hx.Result { r, _ := hx.RunOpRaw(c.Op, c.Schema.Build(), c.V.ToGo()); return r })
+			res = hx.Guard(func() hx.Result { r, _ := hx.RunOpRaw(c.Op, (*hx.Ty)(c.Schema).Build(), c.V.ToGo()); return r })
 		}
 		id := s.emit(c, res)
 		if res.R == "panic" {
